@@ -272,9 +272,12 @@ fn edit(rng: &mut Rng, f: &mut Facts, flags: &mut Flags, kind: &str) -> bool {
     match kind {
         "rename_term" => {
             let i = rng.below(f.terms.len() as u64) as usize;
-            let new = match rng.below(4) {
+            let new = match rng.below(6) {
                 0 => String::new(),
                 1 => format!("{} ", f.terms[i].1),
+                // the prefix hp.obo gives to retired terms, gained or lost: a rename like any other
+                2 => format!("obsolete {}", f.terms[i].1),
+                3 if f.terms[i].1.starts_with("obsolete ") => f.terms[i].1["obsolete ".len()..].to_string(),
                 _ => format!("renamed {}", rng.below(100)),
             };
             let ch = new != f.terms[i].1;
@@ -540,6 +543,10 @@ fn c18_long(rng: &mut Rng, lists: bool) -> Case {
         for (i, id) in ids_all.iter().enumerate() {
             let nm = if !lists && i == 0 { if slot == 0 { long_a.clone() } else { long_b.clone() } } else { format!("t{i}") };
             c.op(format!("term {} {}", id, name(&nm)));
+            if slot == 0 && i == 1 {
+                // the same id defined once more under another name: the first definition stays
+                c.op(format!("term {} {}", id, name("a second definition of the same id")));
+            }
         }
         c.op("complete".to_string());
         c.op("parent 1 118".to_string());
